@@ -156,4 +156,147 @@ theorem community_mismatch (cs : CommunitySession) (m : CommunityMsg) (h : m.com
     unwrapCommunity cs m = none := by
   unfold unwrapCommunity; rw [if_pos h]
 
+/-! ## whole histories -/
+
+/-- the single outstanding request id of a session -/
+def reqId : Session → Int
+  | .community cs => cs.requestId
+  | .v3 vs => vs.requestId
+
+theorem unwrapV3_reqid (C : Ciphers) (s : V3Session) (m : V3Msg) :
+    (unwrapV3 C s m).1.requestId = s.requestId := by
+  unfold unwrapV3
+  cases m.data with
+  | plaintext x =>
+    simp only
+    split
+    · rfl
+    · split <;> rfl
+  | encrypted ct =>
+    simp only
+    cases s.privKey.decrypt C ct m.usm with
+    | ok p =>
+      simp only
+      split
+      · rfl
+      · split <;> rfl
+    | err e => rfl
+    | panic w => rfl
+
+/-- receiving never changes the outstanding id -/
+theorem recvOne_reqid (C : Ciphers) (s : Session) (dg : Bytes) : reqId (s.recvOne C dg).1 = reqId s := by
+  cases s with
+  | community cs =>
+    simp only [Session.recvOne]
+    cases communityMsgTryFrom cs.version dg <;> rfl
+  | v3 vs =>
+    simp only [Session.recvOne]
+    cases v3TryFrom dg with
+    | ok m => simp only [reqId]; exact unwrapV3_reqid C vs m
+    | err e => rfl
+    | panic w => rfl
+
+/-- the delivery decision of one datagram, for both session kinds -/
+theorem recvOne_sound (C : Ciphers) (s : Session) (dg : Bytes) (pdu : Pdu)
+    (h : (s.recvOne C dg).2 = .ok (some pdu)) : pdu.check (reqId s) = true := by
+  cases s with
+  | community cs =>
+    obtain ⟨m, _, _, _, hc⟩ := deliver_sound_community C cs dg pdu h
+    exact hc
+  | v3 vs =>
+    simp only [Session.recvOne] at h
+    cases hm : v3TryFrom dg with
+    | ok m =>
+      rw [hm] at h
+      exact (deliver_sound_v3 C vs m pdu h).2.2.2
+    | err e => rw [hm] at h; cases h
+    | panic w => rw [hm] at h; cases h
+
+/-- the PDU (if any) a receive call hands to the conversion layer, and the session afterwards -/
+def recvPdu (C : Ciphers) (s : Session) : List Bytes → Option Pdu × Session
+  | [] => (none, s)
+  | dg :: rest =>
+    match s.recvOne C dg with
+    | (s', .ok (some pdu)) => (some pdu, s')
+    | (s', .ok none) => recvPdu C s' rest
+    | (s', _) => (none, s')
+
+theorem recvPdu_sound (C : Ciphers) : ∀ (dgs : List Bytes) (s : Session),
+    reqId (recvPdu C s dgs).2 = reqId s ∧ ∀ pdu, (recvPdu C s dgs).1 = some pdu → pdu.check (reqId s) = true
+  | [], s => ⟨rfl, fun _ h => by cases h⟩
+  | dg :: rest, s => by
+    have hk := recvOne_reqid C s dg
+    have hsnd := recvOne_sound C s dg
+    simp only [recvPdu]
+    cases hr : s.recvOne C dg with
+    | mk s' r =>
+      rw [hr] at hk hsnd
+      simp only at hk hsnd
+      cases r with
+      | ok o =>
+        cases o with
+        | some p =>
+          simp only
+          exact ⟨hk, fun pdu h => by cases h; exact hsnd p rfl⟩
+        | none =>
+          simp only
+          have := recvPdu_sound C rest s'
+          rw [hk] at this
+          exact this
+      | err e => exact ⟨hk, fun _ h => by cases h⟩
+      | panic w => exact ⟨hk, fun _ h => by cases h⟩
+
+/-- `recvPdu` is the receive loop: the caller gets the conversion of exactly that PDU, or an exception
+when there is none -/
+theorem recvLoop_recvPdu (C : Ciphers) (op : OpKind) (it : Option GetIter) : ∀ (dgs : List Bytes) (s : Session),
+    (∃ pdu, (recvPdu C s dgs).1 = some pdu ∧ (s.recvLoop C op it dgs).1 = (toPython op pdu it).1) ∨
+    ((recvPdu C s dgs).1 = none ∧
+      ((∃ e, (s.recvLoop C op it dgs).1 = .raise e) ∨ ∃ w, (s.recvLoop C op it dgs).1 = .panic w))
+  | [], s => Or.inr ⟨rfl, Or.inl ⟨_, rfl⟩⟩
+  | dg :: rest, s => by
+    simp only [recvPdu, Session.recvLoop]
+    cases hr : s.recvOne C dg with
+    | mk s' r =>
+      cases r with
+      | ok o =>
+        cases o with
+        | some p => exact Or.inl ⟨p, rfl, rfl⟩
+        | none => exact recvLoop_recvPdu C op it rest s'
+      | err e => exact Or.inr ⟨rfl, Or.inl ⟨_, rfl⟩⟩
+      | panic w => exact Or.inr ⟨rfl, Or.inr ⟨_, rfl⟩⟩
+
+/-- the events of a session's life -/
+inductive Ev where
+  | send (call : Call) (rawReq rawMsg : Int) (buf : Buf)
+  | recv (datagrams : List Bytes)
+
+/-- run a history; every receive is observed as (the id of the most recent send, the delivered PDU) -/
+def run (D : Digests) (C : Ciphers) : Session → Int → List Ev → List (Int × Option Pdu)
+  | _, _, [] => []
+  | s, _, .send call rr rm buf :: rest => run D C (s.send D C call rr rm buf).1 (maskId rr) rest
+  | s, last, .recv dgs :: rest => (last, (recvPdu C s dgs).1) :: run D C (recvPdu C s dgs).2 last rest
+
+/-- **C04.history_sound**: in every history of sends and receives (any interleaving, any datagram
+sequences: lost, duplicated, delayed, reordered or rewritten replies), a PDU handed to the caller
+carries the request id of the most recent send (or is a Report): a value that answered an earlier
+request is never returned -/
+theorem history_sound (D : Digests) (C : Ciphers) : ∀ (evs : List Ev) (s : Session) (last : Int),
+    reqId s = last → ∀ (l : Int) (pdu : Pdu), (l, some pdu) ∈ run D C s last evs → pdu.check l = true
+  | [], _, _, _, _, _, h => by simp [run] at h
+  | .send call rr rm buf :: rest, s, last, _, l, pdu, h => by
+    simp only [run] at h
+    have hl : reqId (s.send D C call rr rm buf).1 = maskId rr := by
+      have := latest_only D C s call rr rm buf
+      cases hs : (s.send D C call rr rm buf).1 with
+      | community cs => rw [hs] at this; exact this
+      | v3 vs => rw [hs] at this; exact this
+    exact history_sound D C rest _ _ hl l pdu h
+  | .recv dgs :: rest, s, last, hinv, l, pdu, h => by
+    simp only [run, List.mem_cons, Prod.mk.injEq] at h
+    obtain ⟨hk, hsnd⟩ := recvPdu_sound C dgs s
+    rcases h with ⟨rfl, hp⟩ | h
+    · rw [← hinv]
+      exact hsnd pdu hp.symm
+    · exact history_sound D C rest _ _ (by rw [hk]; exact hinv) l pdu h
+
 end GufoSnmp.C04
